@@ -198,3 +198,35 @@ def run_case(P):
     res.sample = dict(params=P, verdicts=[mbworld.verdict_name(v) for v in rec.verdict],
                       events=[rec.kinds(0), rec.kinds(1)])
     return res
+
+
+def post(coverage):
+    """(machine, state, input) coverage: reached by this run vs declared in the Automat tables"""
+    from wormhole import _boss, _nameplate, _mailbox, _terminator, _code, _allocator, _lister, _input, _key, _order, \
+        _receive, _send
+    classes = {"B": _boss.Boss, "N": _nameplate.Nameplate, "M": _mailbox.Mailbox, "T": _terminator.Terminator,
+               "C": _code.Code, "A": _allocator.Allocator, "L": _lister.Lister, "I": _input.Input, "K": _key.Key,
+               "SK": _key._SortedKey, "O": _order.Order, "R": _receive.Receive, "S": _send.Send}
+    reached = set()
+    for k in coverage.get("counters", {}):
+        if k.startswith("T|"):
+            _, m, st_, inp = k.split("|", 3)
+            reached.add((m, st_, inp))
+    out = {}
+    unreached = []
+    tot_d = tot_r = 0
+    for name, cls in classes.items():
+        try:
+            auto = cls.m._automaton
+            declared = {(name, t[0].method.__name__, t[1].method.__name__) for t in auto._transitions}
+        except Exception:
+            continue
+        got = declared & reached
+        out[name] = [len(got), len(declared)]
+        tot_d += len(declared)
+        tot_r += len(got)
+        unreached += sorted("%s.%s<-%s" % d for d in declared - reached)
+    # drop the raw per-transition counters from the evidence file, keep the summary
+    coverage["counters"] = {k: v for k, v in coverage.get("counters", {}).items() if not k.startswith("T|")}
+    return dict(transition_coverage=out, transitions_reached=tot_r, transitions_declared=tot_d,
+                transitions_unreached=unreached[:80])
